@@ -36,7 +36,7 @@ grep "VIOLATION\|key=" /tmp/check_$SID.log | head -4 | cut -c1-250
 cp "$PATCH" "$OUT/patch.diff"
 cp "$WT/_seed/$DEMO" "$OUT/"
 [ -f "$WT/_seed/notes.md" ] && cp "$WT/_seed/notes.md" "$OUT/notes.md"
-keys=$(grep -o "key=[^ ]*" /tmp/check_$SID.log | sort -u | head -6 | tr '\n' ' ')
+keys=$(grep -a -o "key=[^ ]*" /tmp/check_$SID.log | sort -u | head -6 | tr '\n' ' ')
 python3 - "$OUT/meta.json" "$SID" "$PROP" "$suite" "$with" "$without" "$rc" "$keys" "$DEMO" "$DEST" "$PKG" "$RUN" <<'PY'
 import json,sys
 out,sid,prop,suite,w,wo,rc,keys,demo,dest,pkg,run=sys.argv[1:13]
